@@ -95,9 +95,13 @@ impl CopySource {
         let mut buf = String::new();
         match self {
             CopySource::Bucket { bucket, key, version_id } => {
-                write!(&mut buf, "{bucket}/{key}").unwrap();
+                // the header value must be URL-encoded (slashes of the key are kept)
+                buf.push_str(bucket);
+                for segment in key.split('/') {
+                    write!(&mut buf, "/{}", urlencoding::encode(segment)).unwrap();
+                }
                 if let Some(version_id) = version_id {
-                    write!(&mut buf, "?versionId={version_id}").unwrap();
+                    write!(&mut buf, "?versionId={}", urlencoding::encode(version_id)).unwrap();
                 }
             }
             CopySource::AccessPoint { .. } => {
